@@ -19,6 +19,10 @@ CHECKS["C14"] = dict(level="model_checking", ref="DESIGN.md §5 C14, §9", thoro
    text="every (schema, JSON document) state up to weight 3 (4 thorough) x JSON universe on both validators; from each state the histories repeat / call-after-all-other-calls (reverse sweep) / string entry point are executed and the ordered (location, reason) lists compared; every JSON error location is resolved in the document; a fixed table checks that malformed schema, malformed document and non-conforming document come back as different error kinds",
    note="sequential histories only: the crate has no static or thread-local mutable state, so concurrent interleavings have nothing to interleave (argued in DESIGN.md 9.4, not explored)",
    tech="exhaustive state x history enumeration on the real validators")
+CHECKS["C06"] = dict(level="model_checking", ref="DESIGN.md §5 C06, §9", thorough=True,
+   text="explicit-state exploration of the parse/format graph: every accepted text of four exhaustively enumerated families (all type terms up to weight 4 (5 thorough) over a syntax alphabet covering every construct and literal kind; rule headers with generics, sockets, /=, //=, group rules; all ordered pairs/triples of representative rules; comma-free, multi-line and tab/CRLF respellings) is a state, its formatting and re-formatting are the transitions; on every state the real parser and printer are run and the formatted text must be accepted, parse to the same AST up to positions/comments/commas, and re-format to itself",
+   note="purely relational on the real parser and printer (no model trusted); commented documents are C16's space",
+   tech="bounded-exhaustive enumeration of documents, round-trip (metamorphic) oracle on the real parser and printer")
 NA = {}
 def main():
     props=[json.loads(l)["id"] for l in open("/verif/properties.jsonl")]
